@@ -2,7 +2,8 @@
    aread_slot / aread_row on abs_state st (the values behind the addresses and capacities). *)
 From Verif Require Import Common.Base C07.Val C07.Model C07.Proofs C07.Proofs2.
 From Coq Require Import Permutation.
-From Verif Require Import Generated.C07PdataMutators C07.Mutators.
+From Verif Require Import Generated.C07PdataMutators C07.Mutators Generated.C07Consts C07.Tie.
+From Coq Require Import String.
 
 (* REFINEMENT (central), full strength: for EVERY schema (every slice, map, value and struct type built
    from the pdatagen templates: logs, metrics, traces, profiles, common types), every finite program of
@@ -155,3 +156,38 @@ Print Assumptions all_mutators_guarded_holds.
 Theorem mutator_table_not_empty : 400 <= n_mutators.
 Proof. exact table_not_empty_l. Qed.
 Print Assumptions mutator_table_not_empty.
+
+(* FROM-RAW: Value.FromRaw / Map.FromRaw / Slice.FromRaw of a nested raw value (nil, scalars, []byte,
+   map[string]any, []any, arbitrarily nested) build exactly the value the raw data describes; the operations
+   LFromRawV / LFromRawM / LFromRawS are covered by refines, sep_preserved and readonly_total like every other *)
+Theorem from_raw_builds_value : forall r, abs_slot (craw r) = vraw r.
+Proof. exact abs_craw. Qed.
+Print Assumptions from_raw_builds_value.
+
+(* TRANSLATOR TIE (Generated/C07Consts.v is re-read from the Go source by tools/go2coq on every run):
+   the hand-written encodings of Model.v and of the harnesses equal what the code says now *)
+Theorem tie_state_consts : Z.b2z false = StateMutable /\ Z.b2z true = StateReadOnly /\ state_consts = [StateMutable; StateReadOnly].
+Proof. exact state_tie_l. Qed.
+Print Assumptions tie_state_consts.
+Theorem tie_value_type_tags :
+  map Z.to_nat [ValueTypeMap; ValueTypeSlice; ValueTypeBytes] = model_container_tags /\
+  any_rowty (Z.to_nat ValueTypeMap) = RT_KVL /\ any_rowty (Z.to_nat ValueTypeSlice) = RT_ARR /\
+  any_rowty (Z.to_nat ValueTypeBytes) = RT_BYTES /\
+  map Z.to_nat [ValueTypeStr; ValueTypeInt; ValueTypeDouble; ValueTypeBool] = [1; 2; 3; 4].
+Proof. pose proof value_type_tie_l as H. tauto. Qed.
+Print Assumptions tie_value_type_tags.
+Theorem tie_metric_type_alternatives :
+  map metric_row [MetricTypeGauge; MetricTypeSum; MetricTypeHistogram; MetricTypeExponentialHistogram; MetricTypeSummary]
+    = [11; 12; 13; 27; 32].
+Proof. pose proof metric_type_tie_l as H. tauto. Qed.
+Print Assumptions tie_metric_type_alternatives.
+Theorem tie_method_sets :
+  methodset_ok "pcommon" "Map" methods_Map = true /\
+  methodset_ok "pcommon" "Slice" methods_Slice = true /\
+  methodset_ok "pcommon" "Value" methods_Value = true /\
+  methodset_ok "pcommon" "UInt64Slice" methods_UInt64Slice = true /\
+  methodset_ok "pmetric" "MetricSlice" methods_MetricSlice = true /\
+  methodset_ok "pmetric" "Metric" methods_Metric = true /\
+  methodset_ok "pmetric" "HistogramDataPoint" methods_HistogramDataPoint = true.
+Proof. exact methodsets_tie_l. Qed.
+Print Assumptions tie_method_sets.
